@@ -165,4 +165,27 @@ theorem sim_readIds {s t : Sl} (h : SameVis s t) (k : Nat) : ∀ i, i + k ≤ s.
     refine Sim.bind (ih (i + 1) (by omega)) fun c d hcd => ?_
     subst hab hcd; exact Sim.ok rfl
 
+/-! ## Option normal forms (used by the C06 well-formedness predicate) -/
+
+/-- An option in the normal form the decoder produces for the non-MPTCP kinds: kind in range,
+    End-of-list/NOP are bare, the others carry `OptionLength = len(OptionData)+2 ≤ 255`, and no
+    MPTCP sub-structure is attached. -/
+def optNorm (o : TcpOption) : Bool :=
+  decide (o.optionType < 256) && decide (o.optionType ≠ 30) &&
+  decide (o = { optionType := o.optionType, optionLength := o.optionLength, optionData := o.optionData }) &&
+  (if isOneByte o then decide (o.optionLength = 1) && decide (o.optionData = [])
+   else decide (o.optionLength = o.optionData.length + 2) && decide (o.optionLength < 256))
+
+/-- an MPTCP option as the decoder leaves it: kind 30, the wire length in OptionLength, no raw
+    OptionData (the content lives in the sub-structures, which are unconstrained here) -/
+def mptcpNorm (o : TcpOption) : Bool :=
+  decide (o.optionType = 30) && decide (o.optionData = []) && decide (3 ≤ o.optionLength) &&
+  decide (o.optionLength < 256)
+
+def optWf (o : TcpOption) : Bool := optNorm o || mptcpNorm o
+
+/-- bytes an option occupies on the wire -/
+def wireLen (o : TcpOption) : Nat :=
+  if o.optionType = 30 then o.optionLength else if isOneByte o then 1 else 2 + o.optionData.length
+
 end Gp.Tcp
